@@ -259,6 +259,24 @@ def invariance(ra, rb, motion):
     parts = {"center_distance_invariant": L.close(d1 ** 2, d2 ** 2, 1e-7),
              "iou_invariant": L.And(L.close(n1, n2, 1e-9), L.close(e1, e2, 1e-9)) if e1 is not 1 and e2 is not 1
              else L.close(i1, i2, 1e-9)}
+    # objects with a past: A and B were already scored above; now their pose is overwritten in place, exactly what
+    # common.dataset.convert_objects_to_global / _to_base_link do on their copies (`state.position = ...`,
+    # `state.orientation = ...`): every score of the re-posed objects must be that of the fresh objects A2, B2
+    for old, new in ((A, A2), (B, B2)):
+        old.state.position = new.state.position
+        old.state.orientation = new.state.orientation
+    d3, i3, j3 = OM.CenterDistanceMatching(A, B).value, OM.IOU2dMatching(A, B).value, OM.IOU3dMatching(A, B).value
+    j2 = OM.IOU3dMatching(A2, B2).value
+
+    def same_ratio(u, v):
+        (nu, eu), (nv, ev) = quotient(u), quotient(v)
+        return L.And(L.close(nu, nv, 1e-9), L.close(eu, ev, 1e-9)) if eu is not 1 and ev is not 1 else L.close(u, v, 1e-9)
+
+    parts["reposed_in_place_center_distance"] = L.close(d3 ** 2, d2 ** 2, 1e-9)
+    parts["reposed_in_place_bev_iou"] = same_ratio(i3, i2)
+    parts["reposed_in_place_iou3d"] = same_ratio(j3, j2)
+    parts["reposed_in_place_plane_distance"] = L.close(OM.PlaneDistanceMatching(A, B).value ** 2,
+                                                       OM.PlaneDistanceMatching(A2, B2).value ** 2, 1e-9)
     return Out(parts=parts, obs={"d": d1, "iou": i1})
 
 
@@ -318,7 +336,8 @@ def obligations(pid, tier):
                           for sc in ("3/2", "1/2")],
                    desc="scores are not affected by earlier scaled footprint / corner queries on the same objects"),
         Obligation("invariance", invariance, cases=inv,
-                   desc="scores invariant under a common rigid motion about the ego"),
+                   desc="scores invariant under a common rigid motion about the ego; objects re-posed in place (as the frame "
+                        "converters do) after having been scored give the scores of fresh objects"),
     ]
 
 
